@@ -604,6 +604,11 @@ func (c *Conn) readRecordOrCCS(expectChangeCipherSpec bool) error {
 		}
 
 		if len(c.rawInputBuf) < recordHeaderLen {
+			if handshakeComplete {
+				// 握手完成后无效记录静默丢弃（RFC 6347 §4.1.2.7），不终止连接
+				c.rawInputBuf = nil
+				continue
+			}
 			return c.in.setErrorLocked(errors.New("dtlcp: record too short"))
 		}
 
@@ -618,6 +623,10 @@ func (c *Conn) readRecordOrCCS(expectChangeCipherSpec bool) error {
 
 		// 版本检查
 		if c.haveVers && vers != c.vers {
+			if handshakeComplete {
+				c.rawInputBuf = nil
+				continue
+			}
 			c.sendAlert(alertProtocolVersion)
 			msg := fmt.Sprintf("received record with version %x when expecting version %x", vers, c.vers)
 			return c.in.setErrorLocked(c.newRecordHeaderError(c.remoteAddr, msg))
@@ -634,11 +643,19 @@ func (c *Conn) readRecordOrCCS(expectChangeCipherSpec bool) error {
 
 		// 长度检查
 		if n > maxCiphertext {
+			if handshakeComplete {
+				c.rawInputBuf = nil
+				continue
+			}
 			c.sendAlert(alertRecordOverflow)
 			msg := fmt.Sprintf("oversized record received with length %d", n)
 			return c.in.setErrorLocked(c.newRecordHeaderError(c.remoteAddr, msg))
 		}
 		if recordHeaderLen+n > len(c.rawInputBuf) {
+			if handshakeComplete {
+				c.rawInputBuf = nil
+				continue
+			}
 			return c.in.setErrorLocked(c.newRecordHeaderError(c.remoteAddr, fmt.Sprintf("record length %d exceeds datagram", n)))
 		}
 
@@ -656,6 +673,11 @@ func (c *Conn) readRecordOrCCS(expectChangeCipherSpec bool) error {
 		record := c.rawInputBuf[:recordHeaderLen+n]
 		data, typ, err := c.in.decrypt(record)
 		if err != nil {
+			if handshakeComplete {
+				// 认证失败的记录不得影响后续真实记录的接收：丢弃该记录，继续处理
+				c.rawInputBuf = c.rawInputBuf[recordHeaderLen+n:]
+				continue
+			}
 			return c.in.setErrorLocked(c.sendAlert(err.(alert)))
 		}
 
